@@ -1,1 +1,1280 @@
-//! (module owned by one property family; see AGENT_GUIDE.md)
+//! G-flow / G-loop: programs in the fragment of C15 / C41 with probe points.
+//!
+//! Fragment (C15): locals initialised with literals of every basic type, reassignments (literal
+//! or another local), `if / elseif / else` over guards built from `type(x) == "…"`, `x == nil`,
+//! `x ~= nil`, truthiness, `not`, `and`, `or` (and immutable condition aliases
+//! `local c = x ~= nil`). G-loop (C41) adds `while`, `repeat`, numeric and generic `for`, all
+//! bounded by counters / literal bounds, conditional `break`, zero-iteration cases, and the
+//! "exit condition guarantees non-nil" templates followed by a use site.
+//!
+//! Every program is deterministic and closed (no input), so one execution is *the* execution.
+//! Owned by the C13/C15/C41 family.
+
+use crate::rng::Rng;
+use std::collections::{BTreeMap, BTreeSet};
+
+pub const VARS: [&str; 4] = ["x", "y", "z", "w"];
+pub const TYPE_NAMES: [&str; 6] = ["nil", "boolean", "number", "string", "table", "function"];
+pub const ODD_TYPE_NAMES: [&str; 4] = ["integer", "userdata", "thread", "float"];
+
+#[derive(Clone, Copy, Debug, PartialEq)]
+pub enum Lit {
+    Nil,
+    True,
+    False,
+    Int(i64),
+    Float,
+    Str(u8),
+    Table,
+    Func,
+}
+
+impl Lit {
+    pub fn text(&self) -> String {
+        match self {
+            Lit::Nil => "nil".into(),
+            Lit::True => "true".into(),
+            Lit::False => "false".into(),
+            Lit::Int(i) => i.to_string(),
+            Lit::Float => "1.5".into(),
+            Lit::Str(i) => ["\"s\"", "\"\"", "'number'"][*i as usize % 3].into(),
+            Lit::Table => "{}".into(),
+            Lit::Func => "function() end".into(),
+        }
+    }
+    pub fn lua_type(&self) -> &'static str {
+        match self {
+            Lit::Nil => "nil",
+            Lit::True | Lit::False => "boolean",
+            Lit::Int(_) | Lit::Float => "number",
+            Lit::Str(_) => "string",
+            Lit::Table => "table",
+            Lit::Func => "function",
+        }
+    }
+    pub fn truthy(&self) -> bool {
+        !matches!(self, Lit::Nil | Lit::False)
+    }
+}
+
+#[derive(Clone, Debug, PartialEq)]
+pub enum Rhs {
+    Lit(Lit),
+    Var(u8),
+}
+
+#[derive(Clone, Debug, PartialEq)]
+pub enum Cond {
+    Truthy(u8),
+    EqNil { var: u8, neg: bool, swapped: bool },
+    TypeIs { var: u8, ty: &'static str, neg: bool, swapped: bool },
+    Alias(u8),
+    Not(Box<Cond>),
+    And(Box<Cond>, Box<Cond>),
+    Or(Box<Cond>, Box<Cond>),
+    /// `nK < lim` (loop counters; G-loop only)
+    CounterLt(u8, i64),
+    /// `nK >= lim`
+    CounterGe(u8, i64),
+    /// literal `true` (only as a `while true` condition)
+    LitTrue,
+}
+
+impl Cond {
+    pub fn vars(&self, out: &mut BTreeSet<u8>) {
+        match self {
+            Cond::Truthy(v) | Cond::EqNil { var: v, .. } | Cond::TypeIs { var: v, .. } => {
+                out.insert(*v);
+            }
+            Cond::Not(c) => c.vars(out),
+            Cond::And(a, b) | Cond::Or(a, b) => {
+                a.vars(out);
+                b.vars(out);
+            }
+            _ => {}
+        }
+    }
+    pub fn aliases(&self, out: &mut BTreeSet<u8>) {
+        match self {
+            Cond::Alias(a) => {
+                out.insert(*a);
+            }
+            Cond::Not(c) => c.aliases(out),
+            Cond::And(a, b) | Cond::Or(a, b) => {
+                a.aliases(out);
+                b.aliases(out);
+            }
+            _ => {}
+        }
+    }
+    pub fn counters(&self, out: &mut BTreeSet<u8>) {
+        match self {
+            Cond::CounterLt(c, _) | Cond::CounterGe(c, _) => {
+                out.insert(*c);
+            }
+            Cond::Not(c) => c.counters(out),
+            Cond::And(a, b) | Cond::Or(a, b) => {
+                a.counters(out);
+                b.counters(out);
+            }
+            _ => {}
+        }
+    }
+    /// structural shape tags (no variable names, no concrete type names)
+    pub fn shape(&self) -> String {
+        match self {
+            Cond::Truthy(_) => "truthy".into(),
+            Cond::EqNil { neg: false, .. } => "eq-nil".into(),
+            Cond::EqNil { neg: true, .. } => "ne-nil".into(),
+            Cond::TypeIs { ty, neg, .. } => {
+                let odd = ODD_TYPE_NAMES.contains(ty);
+                format!("type-{}{}", if *neg { "ne" } else { "eq" }, if odd { "-odd" } else { "" })
+            }
+            Cond::Alias(_) => "alias".into(),
+            Cond::Not(c) => format!("not({})", c.shape()),
+            Cond::And(a, b) => format!("and({},{})", a.shape(), b.shape()),
+            Cond::Or(a, b) => format!("or({},{})", a.shape(), b.shape()),
+            Cond::CounterLt(..) | Cond::CounterGe(..) => "counter".into(),
+            Cond::LitTrue => "true".into(),
+        }
+    }
+    fn text(&self) -> String {
+        match self {
+            Cond::Truthy(v) => VARS[*v as usize].into(),
+            Cond::EqNil { var, neg, swapped } => {
+                let op = if *neg { "~=" } else { "==" };
+                if *swapped { format!("nil {op} {}", VARS[*var as usize]) } else { format!("{} {op} nil", VARS[*var as usize]) }
+            }
+            Cond::TypeIs { var, ty, neg, swapped } => {
+                let op = if *neg { "~=" } else { "==" };
+                if *swapped { format!("\"{ty}\" {op} type({})", VARS[*var as usize]) } else { format!("type({}) {op} \"{ty}\"", VARS[*var as usize]) }
+            }
+            Cond::Alias(a) => format!("c{a}"),
+            Cond::Not(c) => match **c {
+                Cond::Truthy(_) | Cond::Alias(_) => format!("not {}", c.text()),
+                _ => format!("not ({})", c.text()),
+            },
+            Cond::And(a, b) => format!("{} and {}", Self::operand(a), Self::operand(b)),
+            Cond::Or(a, b) => format!("{} or {}", Self::operand(a), Self::operand(b)),
+            Cond::CounterLt(c, k) => format!("n{c} < {k}"),
+            Cond::CounterGe(c, k) => format!("n{c} >= {k}"),
+            Cond::LitTrue => "true".into(),
+        }
+    }
+    fn operand(c: &Cond) -> String {
+        match c {
+            Cond::And(..) | Cond::Or(..) => format!("({})", c.text()),
+            _ => c.text(),
+        }
+    }
+}
+
+#[derive(Clone, Copy, Debug, PartialEq)]
+pub enum UseForm {
+    /// `local _ = v + 1`
+    Arith,
+    /// `v()`
+    Call,
+    /// `local _ = v.f`
+    Index,
+    /// `local _ = v:upper()`
+    Method,
+}
+
+#[derive(Clone, Debug, PartialEq)]
+pub enum Bound {
+    Lit(i64),
+    /// `mK` — a local holding the bound (not a literal, so the analyzer cannot fold it)
+    Local(u8),
+}
+
+#[derive(Clone, Debug, PartialEq)]
+pub struct Stmt {
+    pub sid: u32,
+    pub kind: K,
+}
+
+#[derive(Clone, Debug, PartialEq)]
+pub enum K {
+    Local { vars: Vec<u8>, inits: Vec<Rhs> },
+    Assign { vars: Vec<u8>, rhss: Vec<Rhs> },
+    AliasDef { alias: u8, cond: Cond },
+    If { arms: Vec<(Cond, Vec<Stmt>)>, els: Option<Vec<Stmt>> },
+    Do(Vec<Stmt>),
+    Probe { k: u32, var: u8 },
+    CounterDef(u8),
+    CounterInc(u8),
+    BoundDef(u8, i64),
+    While { cond: Cond, body: Vec<Stmt> },
+    Repeat { body: Vec<Stmt>, cond: Cond },
+    NumFor { from: i64, to: Bound, step: Option<i64>, body: Vec<Stmt> },
+    GenFor { iter: &'static str, table: &'static str, body: Vec<Stmt> },
+    Break,
+    /// probe + use site; `guaranteed` = the preceding loop's exit condition statically
+    /// guarantees that `var` is not nil (and has the type the use form needs)
+    Use { k: u32, var: u8, form: UseForm, guaranteed: bool },
+}
+
+#[derive(Clone, Debug, PartialEq)]
+pub struct Program {
+    pub body: Vec<Stmt>,
+}
+
+// ───────────────────────────── printer ─────────────────────────────
+
+#[derive(Clone, Debug)]
+pub struct ProbeSite {
+    pub k: u32,
+    pub var: u8,
+    /// byte offset of the variable token inside `__probe(k, var)`
+    pub offset: usize,
+    /// guard shapes on the path from the chunk to the probe, e.g. ["then:type-eq", "else:truthy"]
+    pub path: Vec<String>,
+    /// number of enclosing loops
+    pub loop_depth: u32,
+    /// kinds of all loops that *ended* textually before the probe
+    pub after_loops: Vec<&'static str>,
+}
+
+#[derive(Clone, Debug)]
+pub struct UseSite {
+    pub k: u32,
+    pub var: u8,
+    pub form: UseForm,
+    pub guaranteed: bool,
+    /// 0-based line of the use statement
+    pub line: u32,
+    /// 0-based column of the variable token in that line
+    pub col: u32,
+    /// kind of the loop right before it
+    pub loop_kind: &'static str,
+}
+
+#[derive(Clone, Debug, Default)]
+pub struct Printed {
+    pub text: String,
+    pub probes: Vec<ProbeSite>,
+    pub uses: Vec<UseSite>,
+}
+
+struct Pr {
+    out: Printed,
+    ind: usize,
+    path: Vec<String>,
+    loop_depth: u32,
+    seen_loops: Vec<&'static str>,
+    last_loop: &'static str,
+    iter_marks: bool,
+}
+
+fn rhs_text(r: &Rhs) -> String {
+    match r {
+        Rhs::Lit(l) => l.text(),
+        Rhs::Var(v) => VARS[*v as usize].to_string(),
+    }
+}
+
+pub fn loop_kind(k: &K) -> Option<&'static str> {
+    match k {
+        K::While { .. } => Some("while"),
+        K::Repeat { .. } => Some("repeat"),
+        K::NumFor { .. } => Some("numeric-for"),
+        K::GenFor { .. } => Some("generic-for"),
+        _ => None,
+    }
+}
+
+impl Pr {
+    fn line(&mut self, s: &str) {
+        for _ in 0..self.ind {
+            self.out.text.push_str("  ");
+        }
+        self.out.text.push_str(s);
+        self.out.text.push('\n');
+    }
+    fn cur_line(&self) -> u32 {
+        self.out.text.bytes().filter(|b| *b == b'\n').count() as u32
+    }
+    fn probe(&mut self, k: u32, var: u8) {
+        for _ in 0..self.ind {
+            self.out.text.push_str("  ");
+        }
+        self.out.text.push_str(&format!("__probe({k}, "));
+        let offset = self.out.text.len();
+        self.out.text.push_str(VARS[var as usize]);
+        self.out.text.push_str(")\n");
+        self.out.probes.push(ProbeSite { k, var, offset, path: self.path.clone(), loop_depth: self.loop_depth, after_loops: self.seen_loops.clone() });
+    }
+    fn block(&mut self, b: &[Stmt], tag: Option<String>, is_loop: Option<(&'static str, u32)>) {
+        self.ind += 1;
+        if let Some(t) = &tag {
+            self.path.push(t.clone());
+        }
+        if let Some((_kind, sid)) = is_loop {
+            self.loop_depth += 1;
+            if self.iter_marks {
+                self.line(&format!("__probe({}, nil)", 1_000_000 + sid));
+            }
+        }
+        for s in b {
+            self.stmt(s);
+        }
+        if is_loop.is_some() {
+            self.loop_depth -= 1;
+        }
+        if tag.is_some() {
+            self.path.pop();
+        }
+        self.ind -= 1;
+    }
+    fn stmt(&mut self, s: &Stmt) {
+        match &s.kind {
+            K::Local { vars, inits } => {
+                let names: Vec<&str> = vars.iter().map(|v| VARS[*v as usize]).collect();
+                if inits.is_empty() {
+                    self.line(&format!("local {}", names.join(", ")));
+                } else {
+                    let vals: Vec<String> = inits.iter().map(rhs_text).collect();
+                    self.line(&format!("local {} = {}", names.join(", "), vals.join(", ")));
+                }
+            }
+            K::Assign { vars, rhss } => {
+                let names: Vec<&str> = vars.iter().map(|v| VARS[*v as usize]).collect();
+                let vals: Vec<String> = rhss.iter().map(rhs_text).collect();
+                self.line(&format!("{} = {}", names.join(", "), vals.join(", ")));
+            }
+            K::AliasDef { alias, cond } => self.line(&format!("local c{alias} = {}", cond.text())),
+            K::If { arms, els } => {
+                let mut neg: Vec<String> = Vec::new();
+                for (i, (c, b)) in arms.iter().enumerate() {
+                    self.line(&format!("{} {} then", if i == 0 { "if" } else { "elseif" }, c.text()));
+                    let mut tag = String::new();
+                    for n in &neg {
+                        tag.push_str(&format!("else:{n}/"));
+                    }
+                    tag.push_str(&format!("then:{}", c.shape()));
+                    self.block(b, Some(tag), None);
+                    neg.push(c.shape());
+                }
+                if let Some(b) = els {
+                    self.line("else");
+                    let tag = neg.iter().map(|n| format!("else:{n}")).collect::<Vec<_>>().join("/");
+                    self.block(b, Some(tag), None);
+                }
+                self.line("end");
+            }
+            K::Do(b) => {
+                self.line("do");
+                self.block(b, None, None);
+                self.line("end");
+            }
+            K::Probe { k, var } => self.probe(*k, *var),
+            K::CounterDef(c) => self.line(&format!("local n{c} = 0")),
+            K::CounterInc(c) => self.line(&format!("n{c} = n{c} + 1")),
+            K::BoundDef(m, v) => self.line(&format!("local m{m} = {v}")),
+            K::While { cond, body } => {
+                self.line(&format!("while {} do", cond.text()));
+                self.block(body, Some(format!("while:{}", cond.shape())), Some(("while", s.sid)));
+                self.line("end");
+                self.seen_loops.push("while");
+                self.last_loop = "while";
+            }
+            K::Repeat { body, cond } => {
+                self.line("repeat");
+                self.block(body, Some("repeat".into()), Some(("repeat", s.sid)));
+                self.line(&format!("until {}", cond.text()));
+                self.seen_loops.push("repeat");
+                self.last_loop = "repeat";
+            }
+            K::NumFor { from, to, step, body } => {
+                let to = match to {
+                    Bound::Lit(k) => k.to_string(),
+                    Bound::Local(m) => format!("m{m}"),
+                };
+                let st = step.map(|s| format!(", {s}")).unwrap_or_default();
+                self.line(&format!("for i = {from}, {to}{st} do"));
+                self.block(body, Some("numeric-for".into()), Some(("numeric-for", s.sid)));
+                self.line("end");
+                self.seen_loops.push("numeric-for");
+                self.last_loop = "numeric-for";
+            }
+            K::GenFor { iter, table, body } => {
+                self.line(&format!("for _, e in {iter}({table}) do"));
+                self.block(body, Some("generic-for".into()), Some(("generic-for", s.sid)));
+                self.line("end");
+                self.seen_loops.push("generic-for");
+                self.last_loop = "generic-for";
+            }
+            K::Break => self.line("break"),
+            K::Use { k, var, form, guaranteed } => {
+                self.probe(*k, *var);
+                let line = self.cur_line();
+                let v = VARS[*var as usize];
+                let t = match form {
+                    UseForm::Arith => format!("local _ = {v} + 1"),
+                    UseForm::Call => format!("{v}()"),
+                    UseForm::Index => format!("local _ = {v}.f"),
+                    UseForm::Method => format!("local _ = {v}:upper()"),
+                };
+                self.line(&t);
+                let col = (self.ind * 2) as u32 + if matches!(form, UseForm::Call) { 0 } else { 10 };
+                self.out.uses.push(UseSite { k: *k, var: *var, form: *form, guaranteed: *guaranteed, line, col, loop_kind: self.last_loop });
+            }
+        }
+    }
+}
+
+/// Print the program. With `iter_marks`, every loop body starts with `__probe(1000000+sid, nil)`
+/// (used only for a separate luars run that counts iterations; never analysed).
+pub fn print(p: &Program, iter_marks: bool) -> Printed {
+    let mut pr = Pr { out: Printed::default(), ind: 0, path: vec![], loop_depth: 0, seen_loops: vec![], last_loop: "none", iter_marks };
+    for s in &p.body {
+        pr.stmt(s);
+    }
+    pr.out
+}
+
+// ───────────────────────────── generator ─────────────────────────────
+
+struct Gen<'a> {
+    rng: &'a mut Rng,
+    next_sid: u32,
+    next_k: u32,
+    next_alias: u8,
+    next_counter: u8,
+    next_bound: u8,
+    /// visible aliases per block
+    aliases: Vec<Vec<u8>>,
+    budget: i32,
+    loops: bool,
+    in_loop: u32,
+}
+
+impl<'a> Gen<'a> {
+    fn sid(&mut self) -> u32 {
+        self.next_sid += 1;
+        self.next_sid
+    }
+    fn st(&mut self, kind: K) -> Stmt {
+        Stmt { sid: self.sid(), kind }
+    }
+    fn var(&mut self) -> u8 {
+        match self.rng.below(10) {
+            0..=4 => 0,
+            5..=7 => 1,
+            8 => 2,
+            _ => 3,
+        }
+    }
+    fn lit(&mut self) -> Lit {
+        match self.rng.below(16) {
+            0..=2 => Lit::Nil,
+            3 => Lit::True,
+            4..=5 => Lit::False,
+            6..=7 => Lit::Int(self.rng.below(3) as i64),
+            8 => Lit::Float,
+            9..=11 => Lit::Str(self.rng.below(3) as u8),
+            12..=13 => Lit::Table,
+            _ => Lit::Func,
+        }
+    }
+    fn rhs(&mut self) -> Rhs {
+        if self.rng.chance(1, 6) { Rhs::Var(self.var()) } else { Rhs::Lit(self.lit()) }
+    }
+    fn probe(&mut self, var: u8) -> Stmt {
+        self.next_k += 1;
+        let k = self.next_k;
+        self.st(K::Probe { k, var })
+    }
+    fn atom(&mut self) -> Cond {
+        let var = self.var();
+        let visible: Vec<u8> = self.aliases.iter().flatten().copied().collect();
+        match self.rng.below(20) {
+            0..=3 => Cond::Truthy(var),
+            4..=5 => Cond::Not(Box::new(Cond::Truthy(var))),
+            6..=7 => Cond::EqNil { var, neg: false, swapped: self.rng.chance(1, 6) },
+            8..=9 => Cond::EqNil { var, neg: true, swapped: self.rng.chance(1, 6) },
+            10..=14 => Cond::TypeIs { var, ty: self.rng.pick(&TYPE_NAMES), neg: false, swapped: self.rng.chance(1, 8) },
+            15..=16 => Cond::TypeIs { var, ty: self.rng.pick(&TYPE_NAMES), neg: true, swapped: self.rng.chance(1, 8) },
+            17 => Cond::TypeIs { var, ty: self.rng.pick(&ODD_TYPE_NAMES), neg: self.rng.chance(1, 3), swapped: false },
+            _ => {
+                if visible.is_empty() {
+                    Cond::Truthy(var)
+                } else {
+                    Cond::Alias(self.rng.pick(&visible))
+                }
+            }
+        }
+    }
+    fn cond(&mut self, depth: u32) -> Cond {
+        if depth == 0 || self.rng.chance(3, 5) {
+            return self.atom();
+        }
+        match self.rng.below(5) {
+            0 => Cond::Not(Box::new(self.cond(depth - 1))),
+            1..=2 => Cond::And(Box::new(self.cond(depth - 1)), Box::new(self.cond(depth - 1))),
+            _ => Cond::Or(Box::new(self.cond(depth - 1)), Box::new(self.cond(depth - 1))),
+        }
+    }
+    /// a condition without aliases (for alias definitions)
+    fn plain_cond(&mut self) -> Cond {
+        for _ in 0..8 {
+            let c = self.cond(1);
+            let mut a = BTreeSet::new();
+            c.aliases(&mut a);
+            if a.is_empty() {
+                return c;
+            }
+        }
+        Cond::Truthy(self.var())
+    }
+
+    fn block(&mut self, depth: u32, lead: &[u8], n: usize) -> Vec<Stmt> {
+        self.aliases.push(Vec::new());
+        let mut out = Vec::new();
+        for v in lead {
+            out.push(self.probe(*v));
+        }
+        for _ in 0..n {
+            if self.budget <= 0 {
+                break;
+            }
+            self.budget -= 1;
+            self.stmt(depth, &mut out);
+        }
+        self.aliases.pop();
+        out
+    }
+
+    fn if_stmt(&mut self, depth: u32, out: &mut Vec<Stmt>) {
+        let arms_n = match self.rng.below(6) {
+            0..=3 => 1,
+            4 => 2,
+            _ => 3,
+        };
+        let mut arms = Vec::new();
+        let mut mentioned = BTreeSet::new();
+        for _ in 0..arms_n {
+            let c = self.cond(2);
+            c.vars(&mut mentioned);
+            let mut cv = BTreeSet::new();
+            c.vars(&mut cv);
+            let lead: Vec<u8> = cv.into_iter().take(2).collect();
+            let n = self.rng.range(0, 3);
+            let b = self.block(depth - 1, &lead, n);
+            arms.push((c, b));
+        }
+        let els = if self.rng.chance(3, 5) {
+            let lead: Vec<u8> = mentioned.iter().copied().take(2).collect();
+            let n = self.rng.range(0, 2);
+            let mut b = self.block(depth - 1, &lead, n);
+            if b.is_empty() && self.loops {
+                // G-loop keeps clear of the constructs behind C15's findings (empty else,
+                // under-initialised locals, condition aliases) so that C41 witnesses are about loops
+                let v = self.var();
+                b.push(self.probe(v));
+            }
+            Some(b)
+        } else {
+            None
+        };
+        // variables assigned in any branch are probed at the merge point too
+        let mut assigned = BTreeSet::new();
+        for (_, b) in &arms {
+            assigned_vars(b, &mut assigned);
+        }
+        if let Some(b) = &els {
+            assigned_vars(b, &mut assigned);
+        }
+        out.push(self.st(K::If { arms, els }));
+        for v in mentioned.union(&assigned).copied().collect::<Vec<_>>().into_iter().take(3) {
+            out.push(self.probe(v));
+        }
+    }
+
+    fn stmt(&mut self, depth: u32, out: &mut Vec<Stmt>) {
+        let roll = self.rng.below(100);
+        match roll {
+            0..=29 => {
+                let v = self.var();
+                let r = self.rhs();
+                out.push(self.st(K::Assign { vars: vec![v], rhss: vec![r] }));
+                if self.rng.chance(1, 3) {
+                    out.push(self.probe(v));
+                }
+            }
+            30..=33 => {
+                let a = self.var();
+                let b = self.var();
+                if a != b {
+                    let (r1, r2) = if self.rng.bool() { (Rhs::Var(b), Rhs::Var(a)) } else { (self.rhs(), self.rhs()) };
+                    out.push(self.st(K::Assign { vars: vec![a, b], rhss: vec![r1, r2] }));
+                    out.push(self.probe(a));
+                    out.push(self.probe(b));
+                }
+            }
+            34..=63 if depth > 0 => self.if_stmt(depth, out),
+            64..=69 => {
+                // shadowing re-declaration
+                let v = self.var();
+                if !self.loops && self.rng.chance(1, 4) {
+                    let w = (v + 1) % 4;
+                    let r = self.rhs();
+                    out.push(self.st(K::Local { vars: vec![v, w], inits: vec![r] }));
+                    out.push(self.probe(w));
+                } else if !self.loops && self.rng.chance(1, 4) {
+                    out.push(self.st(K::Local { vars: vec![v], inits: vec![] }));
+                } else {
+                    let r = self.rhs();
+                    out.push(self.st(K::Local { vars: vec![v], inits: vec![r] }));
+                }
+                out.push(self.probe(v));
+            }
+            70..=76 => {
+                if self.next_alias < 200 && !self.loops {
+                    let alias = self.next_alias;
+                    self.next_alias += 1;
+                    let cond = self.plain_cond();
+                    out.push(self.st(K::AliasDef { alias, cond }));
+                    self.aliases.last_mut().unwrap().push(alias);
+                }
+            }
+            77..=79 if depth > 0 => {
+                let n = self.rng.range(1, 3);
+                let b = self.block(depth - 1, &[], n);
+                out.push(self.st(K::Do(b)));
+            }
+            80..=89 if self.loops && depth > 0 && self.in_loop < 2 => self.loop_stmt(depth, out),
+            90..=93 if self.in_loop > 0 && depth > 0 => {
+                // conditional break
+                let c = self.cond(1);
+                let sid_b = self.st(K::Break);
+                out.push(self.st(K::If { arms: vec![(c, vec![sid_b])], els: None }));
+            }
+            _ => {
+                let v = self.var();
+                out.push(self.probe(v));
+            }
+        }
+    }
+
+    fn counter(&mut self, out: &mut Vec<Stmt>) -> u8 {
+        let c = self.next_counter;
+        self.next_counter += 1;
+        out.push(self.st(K::CounterDef(c)));
+        c
+    }
+
+    fn loop_body(&mut self, depth: u32, mut head: Vec<Stmt>, probe_vars: &[u8]) -> Vec<Stmt> {
+        self.in_loop += 1;
+        let n = self.rng.range(1, 3);
+        let b = self.block(depth - 1, probe_vars, n);
+        self.in_loop -= 1;
+        head.extend(b);
+        head
+    }
+
+    fn truthy_lit(&mut self) -> Lit {
+        match self.rng.below(6) {
+            0 => Lit::Int(1),
+            1..=2 => Lit::Str(0),
+            3 => Lit::Table,
+            4 => Lit::Func,
+            _ => Lit::True,
+        }
+    }
+
+    fn use_form(l: Lit) -> Option<UseForm> {
+        match l {
+            Lit::Int(_) | Lit::Float => Some(UseForm::Arith),
+            Lit::Str(_) => Some(UseForm::Method),
+            Lit::Table => Some(UseForm::Index),
+            Lit::Func => Some(UseForm::Call),
+            _ => None,
+        }
+    }
+
+    fn loop_stmt(&mut self, depth: u32, out: &mut Vec<Stmt>) {
+        let kind = self.rng.below(14);
+        match kind {
+            0..=1 => {
+                // while nK < LIM [and C] do nK = nK + 1; body end
+                let c = self.counter(out);
+                let lim = self.rng.below(4) as i64;
+                let mut cond = Cond::CounterLt(c, lim);
+                let mut cv = BTreeSet::new();
+                if self.rng.chance(1, 3) {
+                    let extra = self.cond(1);
+                    extra.vars(&mut cv);
+                    cond = if self.rng.bool() { Cond::And(Box::new(cond), Box::new(extra)) } else { Cond::And(Box::new(extra), Box::new(cond)) };
+                }
+                let inc = self.st(K::CounterInc(c));
+                let pv: Vec<u8> = cv.iter().copied().collect();
+                let body = self.loop_body(depth, vec![inc], &pv);
+                self.finish_loop(out, K::While { cond, body }, &cv);
+            }
+            2 => {
+                // while true do nK = nK + 1; body; if nK >= LIM then break end; tail end
+                let c = self.counter(out);
+                let lim = self.rng.range(1, 3) as i64;
+                let inc = self.st(K::CounterInc(c));
+                let mut body = self.loop_body(depth, vec![inc], &[]);
+                let br = self.st(K::Break);
+                body.push(self.st(K::If { arms: vec![(Cond::CounterGe(c, lim), vec![br])], els: None }));
+                if self.rng.bool() {
+                    let v = self.var();
+                    let r = Rhs::Lit(self.lit());
+                    body.push(self.st(K::Assign { vars: vec![v], rhss: vec![r] }));
+                }
+                self.finish_loop(out, K::While { cond: Cond::LitTrue, body }, &BTreeSet::new());
+            }
+            3..=4 => self.template_loop(out, true),
+            5 => {
+                // repeat nK = nK + 1; body until nK >= LIM [or C]
+                let c = self.counter(out);
+                let lim = self.rng.range(1, 3) as i64;
+                let inc = self.st(K::CounterInc(c));
+                let body = self.loop_body(depth, vec![inc], &[]);
+                let mut cond = Cond::CounterGe(c, lim);
+                let mut cv = BTreeSet::new();
+                if self.rng.chance(1, 3) {
+                    let extra = self.cond(1);
+                    extra.vars(&mut cv);
+                    cond = Cond::Or(Box::new(extra), Box::new(cond));
+                }
+                self.finish_loop(out, K::Repeat { body, cond }, &cv);
+            }
+            6..=7 => self.template_loop(out, false),
+            8..=10 => {
+                let (from, to, step) = match self.rng.below(8) {
+                    0 => (1, Bound::Lit(0), None),
+                    1..=2 => (1, Bound::Lit(self.rng.range(1, 3) as i64), None),
+                    3 => (3, Bound::Lit(1), Some(-1)),
+                    4 => (1, Bound::Lit(3), Some(-1)),
+                    _ => {
+                        let m = self.next_bound;
+                        self.next_bound += 1;
+                        let v = self.rng.below(3) as i64;
+                        out.push(self.st(K::BoundDef(m, v)));
+                        (1, Bound::Local(m), None)
+                    }
+                };
+                let body = self.loop_body(depth, vec![], &[]);
+                self.finish_loop(out, K::NumFor { from, to, step, body }, &BTreeSet::new());
+            }
+            _ => {
+                let (iter, table) = match self.rng.below(5) {
+                    0 => ("ipairs", "{}"),
+                    1 => ("pairs", "{}"),
+                    2 => ("ipairs", "{1, 2}"),
+                    3 => ("pairs", "{a = 1}"),
+                    _ => ("ipairs", "{\"s\"}"),
+                };
+                let body = self.loop_body(depth, vec![], &[]);
+                self.finish_loop(out, K::GenFor { iter, table, body }, &BTreeSet::new());
+            }
+        }
+    }
+
+    /// push the loop, then probes of everything the body assigns / the condition mentions
+    fn finish_loop(&mut self, out: &mut Vec<Stmt>, kind: K, cond_vars: &BTreeSet<u8>) {
+        let mut assigned = BTreeSet::new();
+        match &kind {
+            K::While { body, .. } | K::Repeat { body, .. } | K::NumFor { body, .. } | K::GenFor { body, .. } => assigned_vars(body, &mut assigned),
+            _ => {}
+        }
+        out.push(self.st(kind));
+        for v in assigned.union(cond_vars).copied().collect::<Vec<_>>() {
+            out.push(self.probe(v));
+        }
+    }
+
+    /// The templates of the property statement: the exit condition guarantees a value.
+    ///   while not v do … v = L … end          (L truthy)
+    ///   while v == nil do … v = L … end       (L non-nil)
+    ///   repeat … v = L … until v              (L truthy)
+    ///   repeat … v = L … until v ~= nil
+    /// No `break` inside; `v` is assigned only from the single literal L, the pre-loop value is
+    /// nil / absent / false(only for the truthiness forms) or a literal of L's type.
+    fn template_loop(&mut self, out: &mut Vec<Stmt>, is_while: bool) {
+        let v = self.var();
+        let l = self.truthy_lit();
+        let truthy_form = self.rng.bool();
+        let pre = match self.rng.below(5) {
+            0 => None,
+            1..=2 => Some(Rhs::Lit(Lit::Nil)),
+            3 if truthy_form => Some(Rhs::Lit(Lit::False)),
+            3 => Some(Rhs::Lit(Lit::Nil)),
+            _ => Some(Rhs::Lit(l)),
+        };
+        match pre {
+            None => out.push(self.st(K::Local { vars: vec![v], inits: vec![Rhs::Lit(Lit::Nil)] })),
+            Some(r) => {
+                if self.rng.bool() {
+                    out.push(self.st(K::Local { vars: vec![v], inits: vec![r] }));
+                } else {
+                    out.push(self.st(K::Assign { vars: vec![v], rhss: vec![r] }));
+                }
+            }
+        }
+        let mut body = Vec::new();
+        // other variables may be assigned freely in the body
+        if self.rng.bool() {
+            let o = (v + 1 + self.rng.below(3) as u8) % 4;
+            let r = Rhs::Lit(self.lit());
+            body.push(self.st(K::Assign { vars: vec![o], rhss: vec![r] }));
+        }
+        let assign = self.st(K::Assign { vars: vec![v], rhss: vec![Rhs::Lit(l)] });
+        if self.rng.chance(1, 3) {
+            // delayed: only from the second iteration on
+            let c = self.counter(out);
+            body.push(self.st(K::CounterInc(c)));
+            body.push(self.st(K::If { arms: vec![(Cond::CounterGe(c, 2), vec![assign])], els: None }));
+        } else {
+            body.push(assign);
+        }
+        if self.rng.chance(1, 3) {
+            body.push(self.probe(v));
+        }
+        let exit_cond = if truthy_form { Cond::Truthy(v) } else { Cond::EqNil { var: v, neg: true, swapped: false } };
+        let kind = if is_while {
+            let cond = if truthy_form { Cond::Not(Box::new(Cond::Truthy(v))) } else { Cond::EqNil { var: v, neg: false, swapped: false } };
+            K::While { cond, body }
+        } else {
+            K::Repeat { body, cond: exit_cond }
+        };
+        out.push(self.st(kind));
+        self.next_k += 1;
+        let k = self.next_k;
+        match Self::use_form(l) {
+            Some(form) => out.push(self.st(K::Use { k, var: v, form, guaranteed: true })),
+            None => out.push(self.st(K::Probe { k, var: v })),
+        }
+    }
+}
+
+pub fn assigned_vars(b: &[Stmt], out: &mut BTreeSet<u8>) {
+    for s in b {
+        match &s.kind {
+            K::Assign { vars, .. } => out.extend(vars.iter().copied()),
+            K::If { arms, els } => {
+                for (_, b) in arms {
+                    assigned_vars(b, out);
+                }
+                if let Some(b) = els {
+                    assigned_vars(b, out);
+                }
+            }
+            K::Do(b) => assigned_vars(b, out),
+            K::While { body, .. } | K::Repeat { body, .. } | K::NumFor { body, .. } | K::GenFor { body, .. } => assigned_vars(body, out),
+            _ => {}
+        }
+    }
+}
+
+fn gen_prog(rng: &mut Rng, size: usize, loops: bool) -> Program {
+    let mut g = Gen { rng, next_sid: 0, next_k: 0, next_alias: 0, next_counter: 0, next_bound: 0, aliases: vec![Vec::new()], budget: size as i32, loops, in_loop: 0 };
+    let mut body = Vec::new();
+    // every variable is declared up front
+    let mut v = 0u8;
+    while v < 4 {
+        if v < 3 && !loops && g.rng.chance(1, 5) {
+            let r = g.rhs_lit();
+            body.push(g.st(K::Local { vars: vec![v, v + 1], inits: vec![r] }));
+            v += 2;
+        } else {
+            let kind = if !loops && g.rng.chance(1, 8) { K::Local { vars: vec![v], inits: vec![] } } else { K::Local { vars: vec![v], inits: vec![g.rhs_lit()] } };
+            body.push(g.st(kind));
+            v += 1;
+        }
+    }
+    while g.budget > 0 {
+        g.budget -= 1;
+        if loops && g.rng.chance(1, 3) {
+            g.loop_stmt(3, &mut body);
+        } else {
+            g.stmt(3, &mut body);
+        }
+    }
+    // final probes of every variable
+    for v in 0..4u8 {
+        if g.rng.bool() {
+            let p = g.probe(v);
+            body.push(p);
+        }
+    }
+    Program { body }
+}
+
+impl<'a> Gen<'a> {
+    fn rhs_lit(&mut self) -> Rhs {
+        Rhs::Lit(self.lit())
+    }
+}
+
+/// G-flow: loop-free program (C15).
+pub fn gen_flow(rng: &mut Rng, size: usize) -> Program {
+    gen_prog(rng, size, false)
+}
+
+/// G-loop: program with loops (C41).
+pub fn gen_loop(rng: &mut Rng, size: usize) -> Program {
+    gen_prog(rng, size, true)
+}
+
+// ───────────────────────────── shrinking helpers ─────────────────────────────
+
+pub fn stmt_ids(p: &Program) -> Vec<u32> {
+    fn rec(b: &[Stmt], out: &mut Vec<u32>) {
+        for s in b {
+            out.push(s.sid);
+            match &s.kind {
+                K::If { arms, els } => {
+                    for (_, b) in arms {
+                        rec(b, out);
+                    }
+                    if let Some(b) = els {
+                        rec(b, out);
+                    }
+                }
+                K::Do(b) => rec(b, out),
+                K::While { body, .. } | K::Repeat { body, .. } | K::NumFor { body, .. } | K::GenFor { body, .. } => rec(body, out),
+                _ => {}
+            }
+        }
+    }
+    let mut v = Vec::new();
+    rec(&p.body, &mut v);
+    v
+}
+
+pub fn retain(p: &Program, keep: &BTreeSet<u32>) -> Program {
+    fn rb(b: &[Stmt], keep: &BTreeSet<u32>) -> Vec<Stmt> {
+        b.iter()
+            .filter(|s| keep.contains(&s.sid))
+            .map(|s| {
+                let kind = match &s.kind {
+                    K::If { arms, els } => K::If { arms: arms.iter().map(|(c, b)| (c.clone(), rb(b, keep))).collect(), els: els.as_ref().map(|b| rb(b, keep)) },
+                    K::Do(b) => K::Do(rb(b, keep)),
+                    K::While { cond, body } => K::While { cond: cond.clone(), body: rb(body, keep) },
+                    K::Repeat { body, cond } => K::Repeat { body: rb(body, keep), cond: cond.clone() },
+                    K::NumFor { from, to, step, body } => K::NumFor { from: *from, to: to.clone(), step: *step, body: rb(body, keep) },
+                    K::GenFor { iter, table, body } => K::GenFor { iter, table, body: rb(body, keep) },
+                    other => other.clone(),
+                };
+                Stmt { sid: s.sid, kind }
+            })
+            .collect()
+    }
+    Program { body: rb(&p.body, keep) }
+}
+
+/// Every variable / alias / counter / bound that is mentioned is a visible local at that point,
+/// `break` only inside loops. (Shrinking must not turn locals into globals.)
+pub fn well_scoped(p: &Program) -> bool {
+    #[derive(Clone, PartialEq, Eq, PartialOrd, Ord)]
+    enum N {
+        V(u8),
+        A(u8),
+        C(u8),
+        M(u8),
+    }
+    fn cond_ok(c: &Cond, sc: &Vec<BTreeSet<N>>) -> bool {
+        let vis = |n: N| sc.iter().any(|f| f.contains(&n));
+        let mut v = BTreeSet::new();
+        c.vars(&mut v);
+        let mut a = BTreeSet::new();
+        c.aliases(&mut a);
+        let mut k = BTreeSet::new();
+        c.counters(&mut k);
+        v.into_iter().all(|x| vis(N::V(x))) && a.into_iter().all(|x| vis(N::A(x))) && k.into_iter().all(|x| vis(N::C(x)))
+    }
+    fn rhs_ok(r: &Rhs, sc: &Vec<BTreeSet<N>>) -> bool {
+        match r {
+            Rhs::Var(v) => sc.iter().any(|f| f.contains(&N::V(*v))),
+            _ => true,
+        }
+    }
+    fn block(b: &[Stmt], sc: &mut Vec<BTreeSet<N>>, in_loop: bool) -> bool {
+        sc.push(BTreeSet::new());
+        let mut ok = true;
+        for s in b {
+            let vis = |n: N, sc: &Vec<BTreeSet<N>>| sc.iter().any(|f| f.contains(&n));
+            ok &= match &s.kind {
+                K::Local { vars, inits } => {
+                    let r = inits.iter().all(|r| rhs_ok(r, sc));
+                    for v in vars {
+                        sc.last_mut().unwrap().insert(N::V(*v));
+                    }
+                    r
+                }
+                K::Assign { vars, rhss } => vars.iter().all(|v| vis(N::V(*v), sc)) && rhss.iter().all(|r| rhs_ok(r, sc)),
+                K::AliasDef { alias, cond } => {
+                    let r = cond_ok(cond, sc);
+                    sc.last_mut().unwrap().insert(N::A(*alias));
+                    r
+                }
+                K::If { arms, els } => {
+                    let mut r = true;
+                    for (c, b) in arms {
+                        r &= cond_ok(c, sc) && block(b, sc, in_loop);
+                    }
+                    if let Some(b) = els {
+                        r &= block(b, sc, in_loop);
+                    }
+                    r
+                }
+                K::Do(b) => block(b, sc, in_loop),
+                K::Probe { var, .. } | K::Use { var, .. } => vis(N::V(*var), sc),
+                K::CounterDef(c) => {
+                    sc.last_mut().unwrap().insert(N::C(*c));
+                    true
+                }
+                K::CounterInc(c) => vis(N::C(*c), sc),
+                K::BoundDef(m, _) => {
+                    sc.last_mut().unwrap().insert(N::M(*m));
+                    true
+                }
+                K::While { cond, body } => cond_ok(cond, sc) && block(body, sc, true),
+                K::Repeat { body, cond } => {
+                    // the until-condition only mentions outer names in this generator
+                    block(body, sc, true) && cond_ok(cond, sc)
+                }
+                K::NumFor { to, body, .. } => {
+                    (match to {
+                        Bound::Local(m) => vis(N::M(*m), sc),
+                        _ => true,
+                    }) && block(body, sc, true)
+                }
+                K::GenFor { body, .. } => block(body, sc, true),
+                K::Break => in_loop,
+            };
+        }
+        sc.pop();
+        ok
+    }
+    let mut sc = Vec::new();
+    block(&p.body, &mut sc, false)
+}
+
+/// The `n`-th structural one-step reduction (deterministic order), or None.
+/// Sites: splice a branch / loop / do body into the parent, drop an else / elseif arm, replace a
+/// compound condition by one operand or strip a `not`, turn a multi-assignment into a single one.
+pub fn reduce_nth(p: &Program, n: usize) -> Option<Program> {
+    let mut aliases = BTreeMap::new();
+    alias_defs(&p.body, &mut aliases);
+    let mut r = Red { target: n, count: 0, done: false, aliases };
+    let mut q = p.clone();
+    r.block(&mut q.body);
+    if r.done { Some(q) } else { None }
+}
+
+/// the block without the `break`s that belong to the enclosing loop
+fn strip_breaks(b: &[Stmt]) -> Vec<Stmt> {
+    b.iter()
+        .filter(|s| !matches!(s.kind, K::Break))
+        .map(|s| Stmt {
+            sid: s.sid,
+            kind: match &s.kind {
+                K::If { arms, els } => K::If { arms: arms.iter().map(|(c, bb)| (c.clone(), strip_breaks(bb))).collect(), els: els.as_ref().map(|bb| strip_breaks(bb)) },
+                K::Do(bb) => K::Do(strip_breaks(bb)),
+                other => other.clone(),
+            },
+        })
+        .collect()
+}
+
+/// alias id → defining condition
+pub fn alias_defs(b: &[Stmt], out: &mut BTreeMap<u8, Cond>) {
+    for s in b {
+        match &s.kind {
+            K::AliasDef { alias, cond } => {
+                out.insert(*alias, cond.clone());
+            }
+            K::If { arms, els } => {
+                for (_, bb) in arms {
+                    alias_defs(bb, out);
+                }
+                if let Some(bb) = els {
+                    alias_defs(bb, out);
+                }
+            }
+            K::Do(bb) => alias_defs(bb, out),
+            K::While { body, .. } | K::Repeat { body, .. } | K::NumFor { body, .. } | K::GenFor { body, .. } => alias_defs(body, out),
+            _ => {}
+        }
+    }
+}
+
+struct Red {
+    target: usize,
+    count: usize,
+    done: bool,
+    aliases: BTreeMap<u8, Cond>,
+}
+
+impl Red {
+    fn hit(&mut self) -> bool {
+        if self.done {
+            return false;
+        }
+        let h = self.count == self.target;
+        self.count += 1;
+        if h {
+            self.done = true;
+        }
+        h
+    }
+    fn cond(&mut self, c: &mut Cond) {
+        if self.done {
+            return;
+        }
+        match c.clone() {
+            Cond::Alias(a) => {
+                // inline the alias: if the failure survives, the alias was not essential
+                if let Some(def) = self.aliases.get(&a).cloned() {
+                    if self.hit() {
+                        *c = def;
+                    }
+                }
+            }
+            Cond::Not(x) => {
+                if self.hit() {
+                    *c = *x;
+                    return;
+                }
+                if let Cond::Not(inner) = c {
+                    self.cond(inner);
+                }
+            }
+            Cond::And(a, b) | Cond::Or(a, b) => {
+                if self.hit() {
+                    *c = *a;
+                    return;
+                }
+                if self.hit() {
+                    *c = *b;
+                    return;
+                }
+                match c {
+                    Cond::And(x, y) | Cond::Or(x, y) => {
+                        self.cond(x);
+                        self.cond(y);
+                    }
+                    _ => {}
+                }
+            }
+            _ => {}
+        }
+    }
+    fn block(&mut self, b: &mut Vec<Stmt>) {
+        let mut i = 0;
+        while i < b.len() && !self.done {
+            let inners: Vec<Vec<Stmt>> = match &b[i].kind {
+                K::Do(x) => vec![x.clone()],
+                K::While { body, .. } | K::Repeat { body, .. } | K::NumFor { body, .. } | K::GenFor { body, .. } => vec![strip_breaks(body)],
+                K::If { arms, els } => {
+                    let mut v: Vec<Vec<Stmt>> = arms.iter().map(|a| a.1.clone()).collect();
+                    if let Some(e) = els {
+                        v.push(e.clone());
+                    }
+                    v
+                }
+                _ => vec![],
+            };
+            for inner in inners {
+                if self.hit() {
+                    b.splice(i..=i, inner);
+                    return;
+                }
+            }
+            // `local a, b = v` → `local a = v; local b = nil` (is the missing value essential?)
+            if let K::Local { vars, inits } = &b[i].kind {
+                if vars.len() == 2 && inits.len() == 1 && self.hit() {
+                    let (v0, v1, r) = (vars[0], vars[1], inits[0].clone());
+                    let sid = b[i].sid;
+                    // the right-hand side is evaluated before either name is declared
+                    let uses_v0 = matches!(r, Rhs::Var(x) if x == v0);
+                    if !uses_v0 {
+                        b.splice(
+                            i..=i,
+                            vec![
+                                Stmt { sid, kind: K::Local { vars: vec![v0], inits: vec![r] } },
+                                Stmt { sid: sid + 500_000, kind: K::Local { vars: vec![v1], inits: vec![Rhs::Lit(Lit::Nil)] } },
+                            ],
+                        );
+                    }
+                    return;
+                }
+            }
+            self.stmt(&mut b[i]);
+            i += 1;
+        }
+    }
+    fn stmt(&mut self, s: &mut Stmt) {
+        match &mut s.kind {
+            K::Local { vars, inits } => {
+                if vars.len() > 1 && self.hit() {
+                    vars.truncate(1);
+                    inits.truncate(1);
+                    return;
+                }
+                // `local a` → `local a = nil` (is the missing initialiser essential?)
+                if vars.len() == 1 && inits.is_empty() && self.hit() {
+                    inits.push(Rhs::Lit(Lit::Nil));
+                }
+            }
+            K::Assign { vars, rhss } => {
+                if vars.len() > 1 {
+                    if self.hit() {
+                        vars.truncate(1);
+                        rhss.truncate(1);
+                        return;
+                    }
+                    if self.hit() {
+                        vars.remove(0);
+                        rhss.remove(0);
+                    }
+                }
+            }
+            K::AliasDef { cond, .. } => self.cond(cond),
+            K::If { arms, els } => {
+                if els.is_some() && self.hit() {
+                    *els = None;
+                    return;
+                }
+                if arms.len() > 1 {
+                    for i in 0..arms.len() {
+                        if self.hit() {
+                            arms.remove(i);
+                            return;
+                        }
+                    }
+                }
+                for (c, b) in arms.iter_mut() {
+                    self.cond(c);
+                    self.block(b);
+                }
+                if let Some(b) = els {
+                    self.block(b);
+                }
+            }
+            K::Do(b) => self.block(b),
+            K::While { cond, body } => {
+                self.cond(cond);
+                self.block(body);
+            }
+            K::Repeat { body, cond } => {
+                self.block(body);
+                self.cond(cond);
+            }
+            K::NumFor { body, .. } | K::GenFor { body, .. } => self.block(body),
+            _ => {}
+        }
+    }
+}
+
+/// Map probe id → path of guard shapes (used for fingerprints and signatures).
+pub fn probe_paths(pr: &Printed) -> BTreeMap<u32, Vec<String>> {
+    pr.probes.iter().map(|p| (p.k, p.path.clone())).collect()
+}
